@@ -479,7 +479,7 @@ fn process_tags(
     idx_output: &mut BTreeMap<OrderIndex, OutputList>,
     bbb: &mut BoundingBoxBuilder,
 ) -> Result<Option<BoundingBox>> {
-    let mut element_errors: HashMap<OrderIndex, (SvgElement, SvgdxError)> = HashMap::new();
+    let mut element_errors: BTreeMap<OrderIndex, (SvgElement, SvgdxError)> = BTreeMap::new();
     let remain = &mut Vec::new();
 
     while !tags.is_empty() && remain.len() != tags.len() {
